@@ -233,7 +233,7 @@ package cty
 // documented collapse cases (null; equal inclusive number bounds; equal length bounds). The builder's
 // marks are re-applied.
 //@ func (*cty.RefinementBuilder).NewValue
-//@   tags C05 C04
+//@   tags C05 C04 C20
 //@   requires (not (= b 0))
 //@   let o (b_orig b)
 //@   let w (b_wip b)
@@ -252,7 +252,11 @@ package cty
 //@   ensures[C05] known: (=> same (= (unmark result) o))
 //@   ensures[C05] null: (=> (and (not same) (= n0 84)) (and (is_known result) (is_null result)))
 //@   ensures[C05] notnull: (=> (and (not same) (= n0 70)) (not (is_null result)))
-//@   ensures[C05] unknown: (=> (and (not same) (not (is_known result))) (and (not (= n0 84)) (= (rfn_of result) w)))
+// the unknown result carries its own copy of the built refinement (C20: a later call on the builder cannot
+// change it): same kind, same content, another object
+//@   let rr (rfn_of result)
+//@   ensures[C05] unknown: (=> (and (not same) (not (is_known result))) (and (not (= n0 84)) (= (rfn_kind rr) (rfn_kind w)) (not (= rr nil.Any)) (=> ((_ is box<*cty.refinementNumber>) w) (= ($at<cty.refinementNumber> (wip_num rr)) RN)) (=> ((_ is box<*cty.refinementCollection>) w) (= ($at<cty.refinementCollection> (wip_coll rr)) RC)) (=> ((_ is box<*cty.refinementString>) w) (= ($at<cty.refinementString> (wip_str rr)) ($at<cty.refinementString> (wip_str w)))) (=> ((_ is box<*cty.refinementNullable>) w) (= ($at<cty.refinementNullable> (wip_nul rr)) ($at<cty.refinementNullable> (wip_nul w))))))
+//@   ensures[C20] own_refinement: (=> (and (not same) (not (is_known result))) (and (not (= rr w)) (< (wip_num rr) 0) (< (wip_str rr) 0) (< (wip_coll rr) 0) (< (wip_nul rr) 0)))
 //@   ensures[C05] collapse_num: (=> (and (not same) (is_known result) (not (is_null result)) ((_ is box<*cty.refinementNumber>) w)) (and (= n0 70) (cty.refinementNumber.minInc RN) (cty.refinementNumber.maxInc RN) (= (unmark result) (cty.refinementNumber.min RN)) (not (= (cty.refinementNumber.max RN) nilval)) (num_eq (cty.refinementNumber.min RN) (cty.refinementNumber.max RN))))
 //@   ensures[C05] collapse_coll: (=> (and (not same) (is_known result) (not (is_null result)) ((_ is box<*cty.refinementCollection>) w)) (and (= n0 70) (= (cty.refinementCollection.minLen RC) (cty.refinementCollection.maxLen RC))))
 //@   ensures[C05] collapse_only: (=> (and (not same) (is_known result) (not (is_null result))) (or ((_ is box<*cty.refinementNumber>) w) ((_ is box<*cty.refinementCollection>) w)))
